@@ -85,8 +85,15 @@ def one(ctx: Ctx, cs, pname, over, core=True):
         ctx.violation('iteration', f'iteration protocol raised {type(ex).__name__}: {ex}', case)
     pickup = 'pickup' in doc.tags or 'no_opening_barline' in doc.tags
     stages.drain()
-    pairs = [(a, b) for a in range(1, M + 1) for b in range(a, M + 1)]
-    extra = [(0, b) for b in range(1, M + 1)] + [(a, None) for a in range(1, M + 1)] + [(None, b) for b in range(1, M + 1)]
+    import random
+    prng = random.Random(cs ^ 0xC07)
+    pairs = MC.sample_pairs(M, prng)
+    if M > 14:
+        ctx.cls('many_measures (ranges sampled)')
+        ext = sorted({1, 2, 9, 10, 99, 100, M - 1, M} & set(range(1, M + 1)))
+    else:
+        ext = list(range(1, M + 1))
+    extra = [(0, b) for b in ext] + [(a, None) for a in ext] + [(None, b) for b in ext]
     for a, b in pairs + extra:
         ctx.ev()
         ctx.mon('range_exports')
@@ -128,13 +135,13 @@ def one(ctx: Ctx, cs, pname, over, core=True):
     ctx.ev()
     singles = []
     failed = False
-    for m in range(1, M + 1):
+    for m in (range(1, M + 1) if M <= 40 else []):
         out, err = kpx.dumps(d, from_measure=m, to_measure=m, **kw)
         if err is not None:
             failed = True
             break
         singles += [ln for ln in out.split('\n') if ln and MC.syntactic_kind(ln) == 'data']
-    if not failed and singles != sc.data_lines(1, M):
+    if M <= 40 and not failed and singles != sc.data_lines(1, M):
         ctx.violation('partition', f'the {M} single-measure exports together contain {len(singles)} data lines, the full export has '
                       f'{len(sc.data_lines(1, M))}', case)
     # out-of-range pairs must raise ValueError
